@@ -170,13 +170,13 @@ def build_tasks(plan, prop, tier, seed, budget_s):
             for i in range(0, len(scs), per):
                 tasks.append({"engine": eng_name, "prop": prop, "tier": tier, "kind": "list",
                               "scenarios": scs[i:i + per], "det_every": 97, "budget_s": budget_s,
-                              "gen_takes_prop": takes_prop})
+                              "gen_takes_prop": takes_prop, "watchdog_s": max(1800, int(budget_s * 2))})
         else:
             n = qn if tier == "quick" else tn
             seeds = [derive_seed(seed, eng_name, prop, i) % (2**48) for i in range(n)]
-            per = max(1, (n + 63) // 64)
+            per = max(1, min((n + 63) // 64, 1000))       # small tasks: a stuck one is noticed, the pool stays busy
             for i in range(0, n, per):
                 tasks.append({"engine": eng_name, "prop": prop, "tier": tier, "kind": "gen",
                               "seeds": seeds[i:i + per], "det_every": 53, "budget_s": budget_s,
-                              "gen_takes_prop": takes_prop})
+                              "gen_takes_prop": takes_prop, "watchdog_s": max(1800, int(budget_s * 2))})
     return tasks
